@@ -178,7 +178,9 @@ def run(ctx):
     try:
         for name in classes:
             subsets = [[], EXTRA, EXTRA[1:3], [("Content-Type", "x/own")],
-                       [("Content-Length", "3"), ("X-One", "1")]]
+                       [("Content-Length", "3"), ("X-One", "1")],
+                       [("content-type", "x/lower")],
+                       [("CONTENT-TYPE", "x/upper"), ("content-length", "4")]]
             for hdrs in subsets:
                 holder = {}
 
